@@ -40,15 +40,25 @@ class SlotType(BitsInterface):
         )
 
         self.fec_parity: int = parity
+        # undefined data type values are folded to DataTypes.Reserved above, provided
+        # parity must be checked against the data type value as received
+        checked_data_type: int = (
+            data_type.value if isinstance(data_type, DataTypes) else data_type
+        )
 
         if parity < 1:
             # generate parity if not provided
             self.fec_parity = numpy_array_to_int(
                 Golay2087.generate(self.as_bits()[:8])[8:]
             )
+            checked_data_type = self.data_type.value
 
         # check parity
-        self.fec_parity_ok: bool = Golay2087.check(self.as_bits())
+        self.fec_parity_ok: bool = Golay2087.check(
+            int2ba(self.colour_code, length=4)
+            + int2ba(checked_data_type, length=4)
+            + int2ba(self.fec_parity, length=12)
+        )
 
     def as_bits(self) -> bitarray:
         return (
